@@ -73,7 +73,7 @@ BREAKING = [
     dict(id="b070", file=M, old="        return self._unit_multiple / self._term_amount", new="        return self._term_amount / self._unit_multiple", props=["C09"]),
     dict(id="b071", file=M, old="        return ExchangeRate(self._term_currency, ONE, self._unit_currency,\n                            self.inverse_rate)", new="        return ExchangeRate(self._unit_currency, ONE, self._term_currency,\n                            self.inverse_rate)", props=["C09"]),
     dict(id="b072", file=M, old="        if unit_multiple < 1:\n            raise ValueError(\"Unit multiple must be >= 1.\")\n", new="", props=["C09"]),
-    dict(id="b073", file=M, old="        self._term_amount = Decimal(term_amount * mult / unit_multiple, 6)", new="        self._term_amount = Decimal(term_amount * mult / unit_multiple, 5)", props=["C09"]),
+    dict(id="b073", file=M, old="        self._term_amount = Decimal(term_amount, 6)", new="        self._term_amount = Decimal(term_amount, 5)", props=["C09"]),
     dict(id="b074", file=M, old="            if self.unit_currency is other.unit_currency:\n                return ExchangeRate(other.term_currency, ONE,\n                                    self.term_currency,\n                                    self.rate / other.rate)", new="            if self.unit_currency is other.unit_currency:\n                return ExchangeRate(other.term_currency, ONE,\n                                    self.term_currency,\n                                    other.rate / self.rate)", props=["C09"]),
     dict(id="b075", file=M, old="                return other.__class__(other.amount * self.rate,\n                                       self.term_currency)", new="                return other.__class__(other.amount * self.rate,\n                                       self.unit_currency)", props=["C10"]),
     dict(id="b076", file=M, old="            if other.unit is self.term_currency:\n                return other.__class__(other.amount * self.inverse_rate,", new="            if other.unit is self.unit_currency:\n                return other.__class__(other.amount * self.inverse_rate,", props=["C10"]),
@@ -142,6 +142,20 @@ BREAKING = [
          new="        assert unit is not None\n        _UNIT_OP_CACHE[(operator.mul, self, exp)] = (amnt, unit)\n        return amnt, unit\n\n    def __pow__", props=["C17"]),
     dict(id="b211", file=Q, old="            unit._equiv = ONE * (define_as.normalized().num_elem or ONE)",
          new="            unit._equiv = ONE * (define_as.normalized().num_elem or ONE) * 2", props=["C01"]),
+    dict(id="b213", file=M, old="        if term_amount < Decimal(\"0.1\"):\n            # unit_multiple is not a power to 10, so the division lowered\n            # the magnitude of term_amount by one more\n            mult *= 10\n            term_amount *= 10\n",
+         new="", props=["C09"]),
+    dict(id="b214", file=M, old="        if term_amount < Decimal(\"0.1\"):\n            # unit_multiple", new="        if term_amount < Decimal(\"0.01\"):\n            # unit_multiple", props=["C09"]),
+    dict(id="b215", file=M, old="            mult *= 10\n            term_amount *= 10\n", new="            mult *= 10\n", props=["C09"]),
+    dict(id="b216", file=M, old="        mult = Decimal(10) ** (unit_multiple.magnitude\n                               - min(0, magnitude_term_amount + 1))",
+         new="        mult = Decimal(10) ** (unit_multiple.magnitude\n                               + min(0, magnitude_term_amount + 1))", props=["C09"]),
+    dict(id="b221", file=Q, old="        return format(self.symbol, fmt_spec)", new="        return format(self.name or self.symbol, fmt_spec)", props=["C18"]),
+    dict(id="b222", file=Q, old="    dflt_format_spec = '{a} {u}'", new="    dflt_format_spec = '{a}  {u}'", props=["C18"]),
+    dict(id="b223", file=Q, old="        return fmt_spec.format(a=self.amount, u=self.unit)", new="        return fmt_spec.format(a=self.unit, u=self.amount)", props=["C18"]),
+    dict(id="b224", file=Q, old="        return f\"{self.amount} {self.unit}\"", new="        return f\"{self.amount:.6f} {self.unit}\"", props=["C18"]),
+    dict(id="b225", file=Q, old="        if not fmt_spec:\n            fmt_spec = self.dflt_format_spec", new="        if fmt_spec is None:\n            fmt_spec = self.dflt_format_spec", props=["C18"]),
+    dict(id="b230", multi=[(Q, "            else:\n                raise ValueError(\"Item with same or equivalent definition \"\n                                 f\"already registered: '{reg_cls}'.\")\n", "            else:\n                pass\n"),
+                          (Q, "        cls._reg_id = QuantityMeta._registry.register_item(cls)", "        try:\n            cls._reg_id = QuantityMeta._registry.register_item(cls)\n        except ValueError:\n            cls._reg_id = -1")], props=["C02"]),
+    dict(id="b231", file=R, old="            elif self._unique_items:\n", new="            elif self._unique_items and idx < 0:\n", props=["C02"]),
     dict(id="b212", file=M, old="        if cls._converters[-1] is conv:\n            cls._converters.pop()", new="        if cls._converters[-1] is conv:\n            del cls._converters[0]", props=["C12"]),
 ]
 BREAKING = [b for b in BREAKING if b["props"]]
@@ -193,5 +207,13 @@ BENIGN = [
          new="        assert unit is not None\n        return amnt, unit\n\n    @staticmethod\n    def drop_cached_results() -> None:\n        \"\"\"Forget memoised results.\"\"\"\n        _UNIT_OP_CACHE.clear()\n\n    def __pow__", props=["C17", "C02"]),
     dict(id="g202", file=S, old="        return Decimal(10) ** self.exp  # type: ignore", new="        return Decimal(10 ** abs(self.exp)) ** (1 if self.exp >= 0 else -1)  # type: ignore", props=["C20"]),
     dict(id="g204", file=CU, old="            else:\n                curr_entry[4].append(country)\n", new="            else:\n                _currency_dict[iso_code] = (iso_code, int(iso_num_code), name,\n                                            int(minor_units), curr_entry[4] + [country])\n", props=["C08"]),
+    dict(id="g220", file=Q, old="        return f\"{self.amount} {self.unit}\"", new="        return \"%s %s\" % (self.amount, self.unit)", props=["C18"]),
+    dict(id="g221", file=Q, old="        return f\"{self.amount} {self.unit}\"", new="        return str(self.amount) + \" \" + str(self.unit)", props=["C18"]),
+    dict(id="g222", file=Q, old="        return f\"{self.amount} {self.unit}\"", new="        return self.__format__(\"\")", props=["C18"]),
+    dict(id="g223", file=Q, old="        return f\"{self.amount} {self.unit}\"", new="        return \" \".join((str(self.amount), self.unit.symbol))", props=["C18"]),
+    dict(id="g224", file=Q, old="        return fmt_spec.format(a=self.amount, u=self.unit)", new="        amount, unit = self.amount, self.unit\n        return fmt_spec.format(u=unit, a=amount)", props=["C18"]),
+    dict(id="g225", file=Q, old="        return f\"{self.symbol}\"\n", new="        return self.symbol\n", props=["C18"]),
+    dict(id="g226", file=Q, old="        return f\"{self.symbol}\"\n", new="        return self._symbol\n", props=["C18"]),
+    dict(id="g227", file=Q, old="        if not fmt_spec:\n            fmt_spec = self.dflt_format_spec", new="        fmt_spec = fmt_spec or self.dflt_format_spec", props=["C18"]),
     dict(id="g203", file=CU, old="            else:\n                curr_entry[4].append(country)\n", new="            else:\n                curr_entry[4].extend([country])\n", props=["C08"]),
 ]
